@@ -10,6 +10,20 @@ import _boot
 import reg_common as R
 
 
+# Non-string name stand-ins.  reg_common knows "X" -> 42 (truthy); a FALSY non-string takes the
+# "if name:" / PyObject_IsTrue(name) branch of _getcache that the empty string takes, so a missing
+# isinstance check shows only there and only with a warm cache.  All are hashable.
+NONSTRINGS = {"X": 42, "X0": b"", "X1": 0, "X2": (), "X3": None, "X4": b"n1", "X5": 0.0}
+
+
+class World8(R.World):
+    @staticmethod
+    def name(n):
+        if isinstance(n, str) and n in NONSTRINGS:
+            return NONSTRINGS[n]
+        return R.World.name(n)
+
+
 def resolve(w, ops):
     def one(x):
         if isinstance(x, dict):
@@ -32,7 +46,7 @@ payload = _boot.read_payload()
 out = []
 for case in payload["cases"]:
     try:
-        w = R.World(case)
+        w = World8(case)
         ops = resolve(w, case["ops"])
         answers = [a if all(type(x) is int for x in a) else [3, 1]     # e.g. a None among subscribers' results
                    for a in R.run_ops(w, ops)]
